@@ -125,15 +125,21 @@ impl Iterator for CountIter {
 }
 pub type CountStream = chumsky::input::Stream<CountIter>;
 pub type BoxedCharStream = chumsky::input::BoxedStream<'static, char>;
-/// the reader behind every `IoInput` of the harness: seekable, hands out at most two bytes per call and answers every third
+/// the reader behind every `IoInput` of the harness: seekable, positioned after a header, hands out at most two bytes per call and answers every third
 /// call with `ErrorKind::Interrupted` — a transient condition any `Read` may report and every caller has to retry
 pub struct Flaky {
     inner: std::io::Cursor<Vec<u8>>,
     calls: usize,
 }
 impl Flaky {
+    /// the content is preceded by a three-byte header the caller has already read: the reader handed to `IoInput::new` is
+    /// NOT at offset 0 (input positions count from where the reader stands, not from the start of the file)
     pub fn new(bytes: Vec<u8>) -> Self {
-        Flaky { inner: std::io::Cursor::new(bytes), calls: 0 }
+        let mut all = b"#!\n".to_vec();
+        all.extend(bytes);
+        let mut inner = std::io::Cursor::new(all);
+        inner.set_position(3);
+        Flaky { inner, calls: 0 }
     }
 }
 impl std::io::Read for Flaky {
